@@ -21,6 +21,8 @@ type Ctx struct {
 	Repo  string
 	Verif string
 	err   *core.ErrEngine
+
+	evReach map[*ssa.Function]bool
 }
 
 // Registry maps property ids to their rule sets.
@@ -239,13 +241,33 @@ func returns(fn *ssa.Function) []*ssa.Return {
 	return out
 }
 
-// errOperand returns the error-typed result operand of a return.
+// errOperand returns the error-typed result operand of a return (spilled results are forwarded).
 func errOperand(r *ssa.Return) ssa.Value {
 	ri := core.ErrorResultIndex(r.Parent().Signature)
 	if ri < 0 || ri >= len(r.Results) {
 		return nil
 	}
-	return r.Results[ri]
+	return forwardLoad(r.Results[ri])
+}
+
+// forwardLoad resolves a load of a local cell to the value stored last in the same block
+// (results are spilled to cells in functions that contain a defer).
+func forwardLoad(v ssa.Value) ssa.Value {
+	u, ok := v.(*ssa.UnOp)
+	if !ok || u.Op != token.MUL {
+		return v
+	}
+	a, ok := u.X.(*ssa.Alloc)
+	if !ok {
+		return v
+	}
+	blk := u.Block()
+	for i := core.InstrIndex(u) - 1; i >= 0; i-- {
+		if st, ok := blk.Instrs[i].(*ssa.Store); ok && st.Addr == a {
+			return st.Val
+		}
+	}
+	return v
 }
 
 // reachableAvoiding reports the blocks reachable from start without entering a block for which stop is true.
